@@ -373,5 +373,17 @@ CHECKS["C18"] = {
     ],
 }
 
+CHECKS["C10"]["stages"].append(
+    {"name": "native-fuzz", "pkg": "pure", "run": "^$", "fuzz_only": True,
+     "thorough": {"shards": 1, "fuzz": "^FuzzC10$", "fuzztime": "90s", "parallel": 16, "timeout_s": 600}})
+
+CHECKS["C11"]["stages"].append(
+    {"name": "native-fuzz", "pkg": "pure", "run": "^$", "fuzz_only": True,
+     "thorough": {"shards": 1, "fuzz": "^FuzzC11$", "fuzztime": "90s", "parallel": 16, "timeout_s": 600}})
+
+CHECKS["C20"]["stages"].append(
+    {"name": "native-fuzz", "pkg": "pure", "run": "^$", "fuzz_only": True,
+     "thorough": {"shards": 1, "fuzz": "^FuzzC20$", "fuzztime": "90s", "parallel": 16, "timeout_s": 600}})
+
 _NOT_BUILT = "check not built yet in this round (planned, see DESIGN.md section 4)"
 PENDING = {("C%02d" % i): _NOT_BUILT for i in range(1, 21)}
